@@ -9,10 +9,12 @@ import AnsiProofs.Props.C10
   * §1 slices with natural / omitted / negative bounds (`getSlice_act`, `getSlice_nat_act`, …);
   * §2 `_strip`, `removeprefix`, `removesuffix`, `partition`;
   * §3 `_split` with an explicit separator (from `C10.pieceOffsets_sep`);
-  * §4 layouts `g₀ ++ p₀ ++ g₁ ++ p₁ ++ … ++ tail` and the offsets `find` recovers in them
-       (`pieceOffsets_exact`, `pieceOffsets_early`);
-  * §5 the layouts of `str.split(None)`, `str.rsplit(None)`, `str.splitlines`;
-  * §6 `mapText`, `assign_str` (shorter text).
+  * §4 layouts `g₀ ++ p₀ ++ g₁ ++ p₁ ++ … ++ tail` given as (gap, piece) pairs (`catL`, `offsL`)
+       and the offsets `find` recovers in them: `pieceOffsets_exact` (all pieces non-empty),
+       `pieceOffsets_early` (empty pieces allowed: they are found early, the others exactly);
+  * §5 the layouts of `str.split(None)`, `str.rsplit(None)` (`splitWsAux_layR`, `ws_layout`) and
+       `str.splitlines` (`splitlinesAux_layR`, `lines_layout`);
+  * §6 `mapText`, `assign_str` (shorter text); `wf_run` (well-formedness of the example values).
 
   Everything lives in `namespace PiecesL`.
 -/
@@ -752,6 +754,35 @@ theorem lines_layout (s : Str) (keep : Bool) :
       (region_empty _ _ _)
       (fun gp hgp => ⟨(hcond gp hgp).1, fun c hc => (hcond gp hgp).2 c (List.mem_of_mem_head? hc)⟩)
 
+theorem pieceOffsets_length (s : Str) (gap : Nat) (ps : List Str) (idx : Nat) :
+    (AStr.pieceOffsets s gap ps idx).length = ps.length := by
+  induction ps generalizing idx with
+  | nil => rfl
+  | cons p rest ih => simp [AStr.pieceOffsets, ih]
+
+/-- a run of separator characters followed by a non-separator character is determined -/
+theorem sep_prefix_unique {sepc : Char → Bool} {u u' v v' : Str} {c c' : Char}
+    (hu : ∀ d ∈ u, sepc d = true) (hu' : ∀ d ∈ u', sepc d = true) (hc : sepc c = false)
+    (hc' : sepc c' = false) (h : u ++ c :: v = u' ++ c' :: v') : u = u' ∧ c :: v = c' :: v' := by
+  induction u generalizing u' with
+  | nil =>
+    cases u' with
+    | nil => exact ⟨rfl, h⟩
+    | cons d u' =>
+      simp only [List.nil_append, List.cons_append, List.cons.injEq] at h
+      have := hu' d (by simp)
+      rw [← h.1, hc] at this; cases this
+  | cons d u ih =>
+    cases u' with
+    | nil =>
+      simp only [List.nil_append, List.cons_append, List.cons.injEq] at h
+      have := hu d (by simp)
+      rw [h.1, hc'] at this; cases this
+    | cons d' u' =>
+      simp only [List.cons_append, List.cons.injEq] at h
+      obtain ⟨h1, h2⟩ := ih (fun e he => hu e (by simp [he])) (fun e he => hu' e (by simp [he])) h.2
+      exact ⟨by rw [h.1, h1], h2⟩
+
 /-! ## 6 — `mapText`, `assign_str` -/
 
 /-- replacing the text by one of the same length keeps the invariant -/
@@ -786,5 +817,34 @@ theorem assignStr_shorter_slice_len (x : AStr) (t : Str) (ht : t.length < x.len)
   rw [getSlice_len, StrLikeL.sliceIdx_ofNat]
   simp only [sliceIdx]
   omega
+
+/-- a value with one setting on the characters `[a, b)` is well formed (used for the examples) -/
+theorem wf_run (t : Str) (a b : Nat) (s : Setting) (hab : a < b) (hb : b ≤ t.length) :
+    WF { s := t, fmts := [(a, { add := [s] }), (b, { rem := [s] })] } where
+  sorted := by simp [SortedKeys, hab]
+  bound := by
+    intro kp hkp
+    simp only [List.mem_cons, List.not_mem_nil, or_false] at hkp
+    rcases hkp with rfl | rfl <;> simp [AStr.len] <;> omega
+  noAddEnd := by
+    intro kp hkp he
+    simp only [List.mem_cons, List.not_mem_nil, or_false] at hkp
+    rcases hkp with rfl | rfl
+    · simp [AStr.len] at he; omega
+    · rfl
+  ok := by simp [replayOk, replayOkFrom, stepOk, stepPoint, hasId, eraseId]
+  nodup := by
+    intro i
+    simp only [active, activeFrom]
+    split
+    · split <;> simp [stepPoint, eraseId]
+    · simp
+  closed := by
+    have h1 : a ≤ t.length := by omega
+    simp [active, activeFrom, AStr.len, h1, hb, stepPoint, eraseId]
+  coherent := by
+    intro s1 h1 s2 h2 _
+    simp [Fmts.settings] at h1 h2
+    rw [h1, h2]
 
 end PiecesL
